@@ -65,7 +65,7 @@ Definition next (l : lexst) : rune * lexst :=
                 let p := (c + 1)%Z :: rest in
                 with_pos l1 (if N.eqb r 10 then 0%Z :: p else p)
               end in
-    (Some r, with_s (with_width l2 n) (rev_append (encode_rune r) (l_s l2)))
+    (Some r, with_s (with_width l2 (List.length (encode_rune r))) (rev_append (encode_rune r) (l_s l2)))
   end.
 
 (** l.backup() *)
@@ -508,8 +508,10 @@ Definition step (st : lstate) (l : lexst) : lstate * lexst :=
     match r with
     | None => errorf (lit "object reference not closed: eof") l2
     | Some _ =>
-      let l3 := emit TObjectRef (backup l2) in
-      (SGohtContent, snd (skip l3))
+      if mem_byte 10 (l_s l2) || mem_byte 13 (l_s l2) then errorf (lit "object reference not closed: eol") l2
+      else
+        let l3 := emit TObjectRef (backup l2) in
+        (SGohtContent, snd (skip l3))
     end
   | SAttributesStart => (SAttribute, snd (skip l))
   | SAttributesEnd => (SGohtContent, snd (skip l))
@@ -629,8 +631,10 @@ Definition step (st : lstate) (l : lexst) : lstate * lexst :=
       match r with
       | None => errorf (lit "dynamic text value was not closed: eof") l4
       | Some _ =>
-        let l5 := emit TDynamicText (backup l4) in
-        (STextContent, snd (skip l5))
+        if mem_byte 10 (l_s l4) || mem_byte 13 (l_s l4) then errorf (lit "dynamic text value was not closed: eol") l4
+        else
+          let l5 := emit TDynamicText (backup l4) in
+          (STextContent, snd (skip l5))
       end
   | SDoctype =>
     let l1 := skip_run (lit "! ") l in
@@ -751,8 +755,10 @@ Definition step (st : lstate) (l : lexst) : lstate * lexst :=
       match r with
       | None => errorf (lit "dynamic text value was not closed: eof") l4
       | Some _ =>
-        let l5 := emit TDynamicText (backup l4) in
-        (SFilterContent indent k, snd (skip l5))
+        if mem_byte 10 (l_s l4) || mem_byte 13 (l_s l4) then errorf (lit "dynamic text value was not closed: eol") l4
+        else
+          let l5 := emit TDynamicText (backup l4) in
+          (SFilterContent indent k, snd (skip l5))
       end
   | SStopped => (SNil, l)
   | SNil => (SNil, l)
